@@ -18,6 +18,7 @@ LEAFSETS = {
     'mixed': [T.A('a', (2,)), T.A('A', (2, 2)), T.A('I', (2,), 'i'), T.A('p', (2,), 'b'), T.A('z', (2,), 'c')],
     'int': [T.A('i', (), 'i'), T.A('I', (2,), 'i'), ('range', (3,)), T.LOOP_L, ('const', (-2, 'i')), ('const', (3, 'i')), ('const', ((1, 0), 'i')),
             ('toint', (), T.A('p', (2,), 'b')), ('const', ((2, 0, 1), 'i')), ('const', ((3, 5, 2), 'i')), ('const', ((4, 1, 3), 'i'))],
+    'int-small': [T.A('i', (), 'i'), T.A('I', (2,), 'i'), ('range', (3,)), T.LOOP_L, ('const', (-2, 'i')), ('const', (3, 'i')), ('const', ((3, 5, 2), 'i'))],
     'all': T.FLOAT_LEAVES + T.INT_LEAVES + T.BOOL_LEAVES + T.COMPLEX_LEAVES,
 }
 
